@@ -393,6 +393,27 @@ func c02Run(e *core.Env) {
 		}
 	})
 	e.SetBound("journal_depth", maxN)
+	// the same around the end of a leap year (31 Dec 2020 is day 366; week, month, quarter
+	// and year change between two consecutive days)
+	ye := []string{"2020-12-31", "2021-01-01"}
+	yeAlpha, yeCfgs := bodyAlphabet(ye, false), windowCfgs(ye, false)
+	e.Note("year end: journal alphabet %d symbols, depth <= 2, %d flag sets per journal", len(yeAlpha), len(yeCfgs))
+	forEachSeq(e, yeAlpha, 2, func(seq []jr.Dir) {
+		for _, cfg := range yeCfgs {
+			if !e.Take() {
+				continue
+			}
+			key, detail, _ := c02One(drv, seq, cfg)
+			e.Count("evaluations")
+			if key != "" {
+				cs := balCase{Body: cloneDirs(seq), Cfg: cfg}
+				e.Violation(key, detail, cs, func() bool {
+					k, _, _ := c02One(drv, cs.Body, cs.Cfg)
+					return k == key
+				})
+			}
+		}
+	})
 	if e.Take() {
 		// the same cells when the directives are spread over three files, under every loader schedule
 		root, a, b := multiFileJournal()
@@ -432,7 +453,7 @@ func c02Replay(e *core.Env, data json.RawMessage) (bool, string) {
 func init() {
 	core.Register(&core.Check{
 		ID: "C02", Level: "model_checking", Run: c02Run, Replay: c02Replay,
-		QuickBudget: 100 * time.Second, ThoroughBudget: 14 * time.Minute,
+		QuickBudget: 150 * time.Second, ThoroughBudget: 14 * time.Minute,
 		Rule: "every sequence of <= 2 body transactions over the journal alphabet (salary, food, rent with 8 decimals, liability in USD, negative transfer, 4-segment account, two-commodity trade, monthly accrual; thorough adds zero amounts, Unicode, income collision, @performance and all 7 dates) x " +
 			"{all --from/--to over the date alphabet x 6 intervals x --last 0/1/2 x --diff x --close} + {10 mapping rule sets x 5 account filters x 2 commodity filters x 3 remaps x 4 window configurations}; " +
 			"every report is parsed (tree from indentation) and every cell compared with the reference ledger; non-trivial = two body transactions",
